@@ -125,10 +125,8 @@ def run(ctx, report: Report) -> None:
 
     # ---- R4 ------------------------------------------------------------------------------------------------
     r4 = report.rule('C06-R4', 'arguments of the memoised compiler are hashable', floor=4)
-    from .c15 import cache_key_rule
-    cache_key_rule(ctx, r4)
-    for f in r4.findings:
-        f.rule = 'C06-R4'
+    from .sem import compile_table
+    compile_table(ctx, r4, None)
 
     # ---- R5 ------------------------------------------------------------------------------------------------
     r5 = report.rule('C06-R5', 'escape hatches of the type system in the reachable code (listed, soft)')
